@@ -6,7 +6,7 @@ use crate::fun::{gen_fun, universe, Fun};
 use crate::plain;
 use crate::tt::TT;
 use crate::util::{fnv_str, Tape};
-use rsbdd::bdd::{BDDEnv, BDD};
+use rsbdd::bdd::BDDEnv;
 use serde_json::{json, Value};
 use std::rc::Rc;
 
